@@ -4,6 +4,10 @@ package natsrv
 
 import (
 	"fmt"
+	"io"
+	"net"
+	"strings"
+	"sync"
 	"time"
 
 	"github.com/nats-io/nats-server/v2/server"
@@ -37,3 +41,75 @@ func (s *Server) Connect() (*nats.Conn, error) {
 
 // Stop shuts the server down.
 func (s *Server) Stop() { s.S.Shutdown() }
+
+// Proxy is a TCP proxy in front of the server: a client that connects through it can be
+// cut off (its connection dropped, new ones refused) and let back in, while clients
+// connected to the server directly are unaffected.
+type Proxy struct {
+	URL    string
+	ln     net.Listener
+	target string
+	mu     sync.Mutex
+	conns  []net.Conn
+	cut    bool
+}
+
+// Proxy starts a proxy for the server.
+func (s *Server) Proxy() (*Proxy, error) {
+	ln, err := net.Listen("tcp", "127.0.0.1:0")
+	if err != nil {
+		return nil, err
+	}
+	p := &Proxy{ln: ln, target: strings.TrimPrefix(s.URL, "nats://"), URL: "nats://" + ln.Addr().String()}
+	go func() {
+		for {
+			c, err := ln.Accept()
+			if err != nil {
+				return
+			}
+			p.mu.Lock()
+			cut := p.cut
+			p.mu.Unlock()
+			if cut {
+				_ = c.Close()
+				continue
+			}
+			up, err := net.Dial("tcp", p.target)
+			if err != nil {
+				_ = c.Close()
+				continue
+			}
+			p.mu.Lock()
+			p.conns = append(p.conns, c, up)
+			p.mu.Unlock()
+			go func() { _, _ = io.Copy(up, c); _ = up.Close(); _ = c.Close() }()
+			go func() { _, _ = io.Copy(c, up); _ = up.Close(); _ = c.Close() }()
+		}
+	}()
+	return p, nil
+}
+
+// Cut drops every connection through the proxy and refuses new ones.
+func (p *Proxy) Cut() {
+	p.mu.Lock()
+	p.cut = true
+	cs := p.conns
+	p.conns = nil
+	p.mu.Unlock()
+	for _, c := range cs {
+		_ = c.Close()
+	}
+}
+
+// Restore lets clients connect again.
+func (p *Proxy) Restore() {
+	p.mu.Lock()
+	p.cut = false
+	p.mu.Unlock()
+}
+
+// Close stops the proxy.
+func (p *Proxy) Close() {
+	p.Cut()
+	_ = p.ln.Close()
+}
